@@ -374,6 +374,19 @@ impl Run {
                 continue;
             }
             self.observe::<T>(name, idx, root, &schema, type_id, &payload, "encoded", Some(v));
+            // deterministic boundary mutants of every value: one byte short / one byte long, and every one
+            // of the first 8 bytes (value kinds, discriminators, lengths at the head) one up and one down
+            let mut det: Vec<Vec<u8>> = vec![payload[..payload.len() - 1].to_vec(), [payload.as_slice(), &[0u8]].concat()];
+            for j in 1..payload.len().min(9) {
+                for d in [1u8, 255u8] {
+                    let mut m = payload.clone();
+                    m[j] = m[j].wrapping_add(d);
+                    det.push(m);
+                }
+            }
+            for m in det.iter() {
+                self.observe::<T>(name, idx, root, &schema, type_id, m, "mutant", None);
+            }
             for _ in 0..self.mutants {
                 let m = mutate(&payload, &mut self.rng);
                 self.observe::<T>(name, idx, root, &schema, type_id, &m, "mutant", None);
